@@ -628,7 +628,14 @@ func (p NewChannelReqPayload) MarshalBinary() ([]byte, error) {
 	// See Frequency Encoding in MAC Commands
 	// https://lora-developers.semtech.com/documentation/tech-papers-and-guides/physical-layer-proposal-2.4ghz/
 	if freq >= 2400000000 {
+		if freq%200 != 0 {
+			return b, errors.New("lorawan: Freq must be a multiple of 200 for 2.4GHz frequencies")
+		}
 		freq = freq / 2
+	} else if freq >= 1200000000 {
+		// the decoder interprets values >= 12000000 as 2.4GHz frequencies
+		// (200Hz stepping)
+		return b, errors.New("lorawan: Freq must be below 1.2GHz or at least 2.4GHz")
 	}
 
 	if freq/100 >= 16777216 { // 2^24
